@@ -2475,6 +2475,74 @@ func (w *c11World) keyFamilies(v *verifOut) {
 	}
 }
 
+// use makes w the world whose stored blocks the block-related operations refer to.
+func (w *c11World) use() { c11Block, c11Blocks = w.block, w.blocks }
+
+// c11TwoClusters: two independent clusters in one process -- worlds A and B with the same replica
+// ids and the same cache capacity but different keys -- each with its own cached and uncached
+// authority, alive at the same time.  Signatures made and verified in one cluster are presented to
+// the other one and vice versa, interleaved.  Oracle: the property, per world (the cached authority's
+// verdict equals the uncached authority's of the same world); kernel cases per world (one cache
+// per authority).
+func c11TwoClusters(t *testing.T, v *verifOut, name string) {
+	wa := c11NewWorld(t, name, "clA", []hotstuff.ID{1, 2, 3, 4})
+	wb := c11NewWorld(t, name, "clB", []hotstuff.ID{1, 2, 3, 4})
+	m0, view := []byte("ab"), hotstuff.View(5)
+	b3 := map[hotstuff.ID][]byte{1: []byte("ab"), 2: []byte("c"), 3: []byte("a")}
+	tids := map[hotstuff.ID][]byte{1: nil, 2: nil, 3: nil}
+	requests := func(w *c11World) []*c11Op {
+		tb := map[hotstuff.ID][]byte{}
+		for id := range tids {
+			tb[id] = c11TimeoutBytes(id, 7)
+		}
+		return []*c11Op{
+			{op: "verify", sig: w.atom(1, m0), msg: m0},
+			{op: "verify", sig: w.atom(2, m0), msg: m0},
+			{op: "verify", sig: w.multi(m0, 1, 2, 3), msg: m0},
+			{op: "tc", sig: w.multi(view.ToBytes(), 1, 2, 3), view: view},
+			{op: "batch", sig: w.batchSig(b3), batch: b3},
+			{op: "aggqc", sig: w.batchSig(tb), batch: tids, view: 7},
+		}
+	}
+	ra, rb := requests(wa), requests(wb)
+	foreign := func(o *c11Op) *c11Op { c := *o; c.alter = "other-cluster-signature"; return &c }
+	again := func(o *c11Op) *c11Op { c := *o; c.alter = "same"; return &c }
+	for _, capacity := range []int{1, 2, 8, 100} {
+		for order := 0; order < 2; order++ {
+			wa.use()
+			qa := c11NewSeq(wa, v, "two", capacity)
+			wb.use()
+			qb := c11NewSeq(wb, v, "two", capacity)
+			on := func(q *c11Seq, o *c11Op) (c11Res, c11Res) { q.w.use(); return q.do(o) }
+			for i := range ra {
+				first, second, rf, rs := qa, qb, ra[i], rb[i]
+				if order == 1 {
+					first, second, rf, rs = qb, qa, rb[i], ra[i]
+				}
+				on(first, rf)           // genuine in its own cluster: accepted and remembered there
+				on(second, foreign(rf)) // the other cluster's keys do not verify it
+				on(second, rs)          // its own genuine one
+				on(first, foreign(rs))
+				on(first, again(rf))
+				on(second, foreign(rf))
+			}
+			// a signature the cached authority made itself (remembered by Cache.Sign), shown to the other cluster
+			_, own := on(qa, &c11Op{op: "sign", msg: []byte("bc")})
+			if own.sig != nil {
+				on(qa, &c11Op{op: "verify", sig: own.sig, msg: []byte("bc")})
+				on(qb, &c11Op{op: "verify", sig: own.sig, msg: []byte("bc"), alter: "other-cluster-signature"})
+			}
+			_, ownB := on(qb, &c11Op{op: "mkpc", blk: 0})
+			if ownB.sig != nil {
+				on(qb, &c11Op{op: "vpc", sig: ownB.sig, blk: 0})
+				on(qa, &c11Op{op: "verify", sig: ownB.sig, msg: wb.blocks[0].ToBytes(), alter: "other-cluster-signature"})
+			}
+			qa.finish()
+			qb.finish()
+		}
+	}
+}
+
 // hibits: a verification with the genuine labels (remembered), then the same signature with one
 // or all signer labels replaced by ids that differ only in high bits (id + m*2^k for every k in
 // 8..31, resp. 8..20 for BLS bitfields), then the genuine one again.  Single signatures,
@@ -2613,6 +2681,10 @@ func TestVerifC11(t *testing.T) {
 		c11Block, c11Blocks = w.block, w.blocks
 		w.hibits(v)
 		w.random(v, v.Pick(map[string]int{crypto.NameBLS12: 15}[name]+25, 600))
+	}
+	// two clusters with different keys in one process
+	for _, name := range []string{crypto.NameEDDSA, crypto.NameECDSA, crypto.NameBLS12} {
+		c11TwoClusters(t, v, name)
 	}
 	// a membership that grows after the authorities and the cache were created
 	c11Growth(t, v, crypto.NameEDDSA, v.Pick(16, 400))
